@@ -235,6 +235,15 @@ def build(hist):
 
 def compare(a, b):
     oa, ob = a.observables(), b.observables()
+    # ends caused by silence are detected by both servers within the heartbeat bound, not at the same instant: once one
+    # of them has dropped a session for a timeout-class reason that session leaves the comparison on both sides
+    limbo = {sid for o in (oa, ob) for sid, evs in o['events'].items() if ('disconnect', 'timeout-class') in evs}
+    for o in (oa, ob):
+        for sid in limbo:
+            if sid in o['events']:
+                o['events'][sid] = [e for e in o['events'][sid] if e != ('disconnect', 'timeout-class')]
+            o['transport'].pop(sid, None)
+        o['alive'] = [s_ for s_ in o['alive'] if s_ not in limbo]
     diffs = []
     for k in ('events', 'delivered', 'admission', 'alive', 'transport'):
         if report.dumps(oa[k], sort_keys=True) != report.dumps(ob[k], sort_keys=True):
